@@ -38,6 +38,11 @@ func v2ParseConfig(rd io.Reader) (Config, error) {
 		if conf.SQL[j].Engine == "" {
 			return conf, ErrMissingEngine
 		}
+		switch conf.SQL[j].Engine {
+		case EngineMySQL, EnginePostgreSQL, EngineXLemon:
+		default:
+			return conf, ErrUnknownEngine
+		}
 		if conf.SQL[j].Gen.Go != nil {
 			if conf.SQL[j].Gen.Go.Out == "" {
 				return conf, ErrNoPackagePath
